@@ -1611,8 +1611,14 @@ class ScopeSampler:
             kinds += ["IF"] * 2 + ["IFE", "BLK", "BLK", "FOR", "FORSH", "FORSHNC", "FORSH2", "SWINIT", "TSW", "RANGE", "WHILE"]
         if in_loop:
             kinds += ["BRK", "CNT"]
+        if depth > 0:
+            kinds += ["RET"]
+        if depth < self.max_depth and budget[0] >= 3:
+            kinds += ["IFRE"] * 2
         k = rng.choice(kinds)
         top = scopes[-1]
+        if k == "RET":
+            return [("return",)]
         if k == "DECL":
             cand = [n for n in self.NAMES if n not in top["vars"]]
             if not cand:
@@ -1664,6 +1670,12 @@ class ScopeSampler:
             return [("if", g, sub(), None)]
         if k == "IFE":
             return [("if", g, sub(), sub())]
+        if k == "IFRE":
+            # the then-branch ends in a return, the else block declares (shadows) on its own
+            then = sub()
+            if then[-1][0] not in ("break", "continue", "return"):
+                then = then + [("return",)]
+            return [("if", g, then, sub())]
         if k == "BLK":
             return [("block", sub())]
         if k == "FOR":
@@ -2257,6 +2269,12 @@ def c12_injections():
     I.append(("fallthrough_chain_middle_default", [("raw", "switch a & 3 {\ncase 0:\n\trt.Emit(rt.EFF, 1013)\n\tfallthrough\ndefault:\n\trt.Emit(rt.EFF, 1014)\n\tfallthrough\ncase 1:\n\tYield(b + 1015)\ncase 2:\n\tYield(a + 1016)\n}")]))
     I.append(("fallthrough_after_yielding_if", [("raw", "switch a & 1 {\ncase 1:\n\tif g3 {\n\t\tYield(a + 996)\n\t}\n\tfallthrough\ncase 0:\n\tYield(b + 997)\n}")]))
     I.append(("fallthrough_after_yielding_switch", [("raw", "switch a & 1 {\ncase 1:\n\tswitch b & 1 {\n\tcase 0:\n\t\tYield(a + 998)\n\t}\n\tfallthrough\ncase 0:\n\tYield(b + 999)\n}")]))
+    # a yielding clause that ends in fallthrough and declares a name the next clause reads from outside
+    I.append(("fallthrough_shadowing_clause", [("raw", "fx := b\nswitch a & 1 {\ncase 1:\n\tfx := a + 1100\n\tYield(fx)\n\tfallthrough\ncase 0:\n\tYield(fx + 1101)\n}")]))
+    # the clause fallen into has a loop / switch with a non-':=' init, and is also entered directly
+    I.append(("fallthrough_into_init_loop", [("raw", "fi := 0\nswitch a & 1 {\ncase 1:\n\tYield(a + 1102)\n\tfallthrough\ncase 0:\n\tfor fi = 5; fi < 7; fi++ {\n\t\tYield(fi + 1103)\n\t}\n}\nYield(fi + 1104)")]))
+    I.append(("fallthrough_into_init_switch", [("raw", "fi := 0\nswitch a & 1 {\ncase 1:\n\tYield(a + 1105)\n\tfallthrough\ncase 0:\n\tswitch fi = b & 1; fi {\n\tcase 0:\n\t\tYield(fi + 1106)\n\tdefault:\n\t\tYield(fi + 1107)\n\t}\n}\nYield(fi + 1108)")]))
+    I.append(("fallthrough_chain_yielding", [("raw", "fx := b\nswitch a & 3 {\ncase 1:\n\tYield(a + 1109)\n\tfallthrough\ncase 0:\n\tfx := a + 1110\n\tYield(fx)\n\tfallthrough\ndefault:\n\tYield(fx + 1111)\n}")]))
     I.append(("fallthrough_after_yielding_loop", [("raw", "switch a & 1 {\ncase 1:\n\tfor fi := 0; fi < 2; fi++ {\n\t\tYield(fi + 1000)\n\t}\n\tfallthrough\ncase 0:\n\tYield(b + 1001)\n}")]))
     I.append(("yield_in_wrong_signature_literal", [("raw", "emit := func(v int) { Yield(v) }\nemit(a + 993)"), Y("b + 994")]))
     I.append(("yield_in_wrong_signature_literal_result", [("raw", "emit2 := func(v int) int {\n\tYield(v)\n\treturn v + 1\n}"), Y("emit2(a) + 995")]))
